@@ -3,7 +3,7 @@
    This file only closes statements with proved lemmas; the instance theorems are concrete histories
    (with the observations the implementation produced for them) re-evaluated inside Coq. *)
 From Coq Require Import List NArith.
-From Proto Require Import Broker Script ProofsBasic ProofsInstances.
+From Proto Require Import Broker Script ProofsBasic ProofsInstances Props ProofsSession.
 Import ListNotations.
 Open Scope N_scope.
 
@@ -14,3 +14,23 @@ Print Assumptions C09_instance_c09_resumed_will.
 Theorem C09_instance_c09_will_retain_server_close : run_broker [262144] h_c09_will_retain_server_close = o_c09_will_retain_server_close.
 Proof. exact ProofsInstances.inst_c09_will_retain_server_close. Qed.
 Print Assumptions C09_instance_c09_will_retain_server_close.
+
+(* a connection that ends without DISCONNECT publishes exactly its will (topic, payload, QoS, retain of its CONNECT) *)
+Theorem C09_stop_will : Props.C09_stop_will.
+Proof. exact ProofsSession.stop_will. Qed.
+Print Assumptions C09_stop_will.
+
+(* no will flag: nothing is published at the end *)
+Theorem C09_stop_no_will : Props.C09_stop_no_will.
+Proof. exact ProofsSession.stop_no_will. Qed.
+Print Assumptions C09_stop_no_will.
+
+(* DISCONNECT discards the will *)
+Theorem C09_disconnect : Props.C09_disconnect.
+Proof. exact ProofsSession.disconnect. Qed.
+Print Assumptions C09_disconnect.
+
+(* the will kept is the one of the latest accepted CONNECT *)
+Theorem C09_connect_will : Props.C09_connect_will.
+Proof. exact ProofsSession.connect_will. Qed.
+Print Assumptions C09_connect_will.
